@@ -424,7 +424,9 @@ func runC17Case(c *Ctx, idx int) *CaseResult {
 		}
 	}
 	// a knowledge base that saw nothing but a rejected text is still a good place for the next text
-	if !preloaded && berr != nil {
+	// (not when the rejected text itself names Pre1 / Pre2: what it may have left behind would
+	// make the pre-text a legitimate duplicate)
+	if !preloaded && berr != nil && !strings.Contains(doc, "Pre1") && !strings.Contains(doc, "Pre2") {
 		if err := rb.BuildRuleFromResource(kbName, kbVer, pkg.NewBytesResource([]byte(c17PreText))); err != nil {
 			cr.violate("a well-formed text is rejected by a knowledge base that only saw a rejected text before: "+err.Error(), detail)
 			return cr
